@@ -100,45 +100,6 @@ def run(ctx):
               msg=f"task.unique(kill_me=True): {bad_self or 'no path cancels the caller'} - a task re-claiming its own name would kill itself",
               key="guard of reaper_cancel(self)", node=fn, rel="function.py", sample={"paths": n_self})
 
-    ctx.rule("R13.3", "claiming updates owner map and name sets together; the previous owner loses exactly that name", floor=2)
-    n_claim = 0
-    bad = None
-    for kind, c, desc in paths:
-        sets = [e for e in c.trace if e[0] == "setitem" and "unique_name2task" in repr(e[1])]
-        if not sets:
-            continue
-        n_claim += 1
-        calls = [repr(e) for e in c.trace]
-        if not any("unique_task2name" in repr(e) and (".add" in repr(e) or "boundmethod" in repr(e)) for e in c.trace) and \
-                not any(e[0] == "call" and "add" in str(e[1]) for e in c.trace):
-            pass
-    # structural form of the same obligation (the abstract trace does not record method calls on registry values)
-    adds = [n for n in body_walk(fn) if isinstance(n, ast.Call) and isinstance(n.func, ast.Attribute) and n.func.attr == "add"
-            and "unique_task2name" in norm(n.func.value) and "curr_task" in norm(n.func.value) and n.args and norm(n.args[0]) == "name"]
-    discards = [n for n in body_walk(fn) if isinstance(n, ast.Call) and isinstance(n.func, ast.Attribute) and n.func.attr == "discard"
-                and "unique_task2name[" in norm(n.func.value) and norm(n.args[0]) == "name"]
-    owner_sets = [n for n in body_walk(fn) if isinstance(n, ast.Assign) and any("unique_name2task[name]" in norm(t) for t in n.targets)]
-    ctx.check(len(owner_sets) == 1 and norm(owner_sets[0].value) == "curr_task" and n_claim >= 1, "R13.3", TU, "owner map set to the calling task",
-              msg=f"task.unique: the owner map is written by {[short(n) for n in owner_sets]}; it must record the calling task exactly once per claim",
-              key="owner map write", node=owner_sets[0] if owner_sets else fn, rel="function.py")
-    ctx.check(len(adds) >= 1, "R13.3", TU, "name added to the caller's set",
-              msg="task.unique no longer adds the claimed name to the caller's name set: the name is never released when the task ends",
-              key="name added to own set", node=fn, rel="function.py")
-    ctx.check(len(discards) >= 1, "R13.3", TU, "only the claimed name is discarded from the previous owner's set",
-              msg="task.unique no longer discards exactly the claimed name from the previous owner's set (its other names must stay owned, this one must not be released twice)",
-              key="discard from previous owner", node=fn, rel="function.py")
-    # claim happens only for pyscript tasks: the writes are under `curr_task in cls.our_tasks`
-    if owner_sets:
-        p = owner_sets[0]
-        guarded = False
-        q = getattr(p, "_parent", None)
-        while q is not None and not isinstance(q, (ast.FunctionDef, ast.AsyncFunctionDef)):
-            if isinstance(q, ast.If) and "curr_task in cls.our_tasks" in norm(q.test):
-                guarded = True
-            q = getattr(q, "_parent", None)
-        ctx.check(guarded, "R13.3", TU, "claim only by tasks pyscript started", msg="task.unique records ownership for tasks that are not in our_tasks: run_coro would never release the name",
-                  key="claim guarded by our_tasks", node=p, rel="function.py")
-
     ctx.rule("R13.4", "unique names are released only by run_coro when the owner ends", floor=2)
     regs = task_registries(program)
     rem = [(k, r, u, n) for k, r, u, n in registry_writes(program, {"unique_task2name": "dict"}) if k == "remove"]
